@@ -1292,6 +1292,71 @@ theorem writeSector_out_of_range (st : Region) {x z : Int} (h : idx? x z = none)
   unfold writeSector
   simp only [h]
 
+/-! ### aged files; reads as state transformers -/
+
+theorem size_foldl_append (l : List Nat) (g : Nat → BitVec 32) (acc : ByteArray) :
+    (l.foldl (fun acc k => acc ++ be32bytes (g k)) acc).size = acc.size + 4 * l.length := by
+  induction l generalizing acc with
+  | nil => simp
+  | cons k l ih => rw [List.foldl_cons, ih, ByteArray.size_append, size_be32bytes, List.length_cons]; omega
+
+theorem size_agedSector (f : ByteArray) : (agedSector f).size = 4096 := by
+  unfold agedSector
+  rw [size_foldl_append (List.range 1024) (fun k => agedStamp (be32 f (4096 + 4 * k)))]
+  simp
+
+/-- the aged file differs from the file only inside the timestamp sector -/
+theorem ageFile_frame (f : ByteArray) : Frame f (ageFile f) (fun i => 4096 ≤ i ∧ i < 8192) := by
+  unfold ageFile
+  apply Frame.put
+  intro i a b
+  rw [size_agedSector] at b
+  exact ⟨a, by omega⟩
+
+/-- a change confined to the timestamp sector, followed by re-reading the timestamp table, keeps the invariant -/
+theorem Inv.retime {st abs} (inv : Inv st abs) (f' : ByteArray)
+    (fr : Frame st.file f' (fun i => 4096 ≤ i ∧ i < 8192)) {st' : Region}
+    (hf : st'.file = f') (hO : st'.offsets = st.offsets) (hT : st'.timestamps = Tbl.ofFile f' 4096)
+    (hocc : st'.occ = st.occ) (hhi : st'.hi = st.hi) : Inv st' abs := by
+  refine { sizeO := by rw [hO]; exact inv.sizeO, sizeT := by rw [hT]; exact Tbl.size_ofFile _ _,
+           fsize := by rw [hf]; exact Nat.le_trans inv.fsize fr.1, hdrO := ?_, hdrT := ?_,
+           absent := by rw [hO]; exact inv.absent, stored := ?_, disj := by rw [hO]; exact inv.disj,
+           occ := by rw [hO, hocc]; exact inv.occ, hi := by rw [hocc, hhi]; exact inv.hi }
+  · intro k hk
+    rw [hf, hO, be32_frame fr _ (fun j hj => by omega)]; exact inv.hdrO k hk
+  · intro k hk
+    rw [hf, hT, Tbl.get_ofFile _ _ _ hk]
+  · intro k hk d hd
+    rw [hf, hO]
+    have s := inv.stored k hk d hd
+    exact s.frame fr (fun i h1 h2 => by have := s.sec_ge; omega)
+
+def retimed (st : Region) (f' : ByteArray) : Region :=
+  { file := f', offsets := st.offsets, timestamps := Tbl.ofFile f' 4096, occ := st.occ, hi := st.hi }
+
+/-- re-opening an aged file: `Load` succeeds and the loaded state satisfies the invariant for the same chunks -/
+theorem Inv.age {st abs} (inv : Inv st abs) :
+    ∃ st', load (ageFile st.file) = .ok st' ∧ Inv st' abs := by
+  have inv1 : Inv (retimed st (ageFile st.file)) abs :=
+    inv.retime (ageFile st.file) (ageFile_frame st.file) (by simp only [retimed]) (by simp only [retimed])
+      (by simp only [retimed]) (by simp only [retimed]) (by simp only [retimed])
+  have hfile : (retimed st (ageFile st.file)).file = ageFile st.file := by simp only [retimed]
+  rw [← hfile]
+  obtain ⟨st', h1, _, _, _, h5, _⟩ := inv1.reload
+  exact ⟨st', h1, h5⟩
+
+/-- reading leaves the Region unchanged, whatever it returns -/
+theorem readSectorS_state (st : Region) (x z : Int) : (readSectorS st x z).2 = st := rfl
+
+theorem runReads_eq (st : Region) (rs : List (Int × Int)) :
+    runReads st rs = (rs.map fun p => readSector st p.1 p.2, st) := by
+  induction rs with
+  | nil => rfl
+  | cons p rs ih =>
+    obtain ⟨x, z⟩ := p
+    unfold runReads
+    simp only [readSectorS, ih, List.map_cons]
+
 /-- the operations of a history (reads and existence tests do not change the state) -/
 inductive Op where
   | write (x z : Int) (data : ByteArray) (now : BitVec 32)
@@ -1299,11 +1364,15 @@ inductive Op where
   | exist (x z : Int)
   | pad
   | reload
+  | age
 
 def step (st : Region) : Op → Region
   | .write x z d now => (writeSector st x z d now).2.1
   | .pad => padToFullSector st
   | .reload => match load st.file with
+    | .ok st' => st'
+    | _ => st
+  | .age => match load (ageFile st.file) with
     | .ok st' => st'
     | _ => st
   | _ => st
@@ -1341,6 +1410,12 @@ theorem step_inv {st : Region} {abs : Nat → Option ByteArray} (inv : Inv st ab
     obtain ⟨st', h1, _, _, _, h5, _⟩ := inv.reload
     show Inv (match load st.file with | .ok st' => st' | _ => st) abs
     rw [h1]
+    exact h5
+  | age =>
+    obtain ⟨st', h1, h5⟩ := inv.age
+    have e1 : step st Op.age = st' := by simp only [step, h1]
+    have e2 : absStep abs Op.age = abs := by simp only [absStep]
+    rw [e1, e2]
     exact h5
 
 theorem Inv.history (ops : List Op) {st : Region} {abs : Nat → Option ByteArray} (inv : Inv st abs) :
